@@ -1,6 +1,8 @@
 package p19
 
 import (
+	"strings"
+
 	"verif/internal/gen"
 )
 
@@ -32,12 +34,216 @@ func result(name, value string) M {
 }
 
 func directedNames() []string {
-	return []string{"contactql-urn-conditions", "unnamed-contact", "unnamed-contact-no-urns", "three-schemes", "msg-from-foreign-urn", "parent-child-runs", "result-holds-urn", "urn-into-everything",
+	out := []string{"contactql-urn-conditions", "contactql-operator-grid", "unnamed-contact", "unnamed-contact-no-urns", "three-schemes", "msg-from-foreign-urn", "parent-child-runs", "result-holds-urn", "urn-into-everything",
 		"flow-action-parent-summary", "voice-call-and-dial", "refreshed-contact", "add-urn-from-input", "start-session-summary", "child-of-trigger-parent"}
+	// "contacts without a name are shown by id": every id shape x both ways of having no name x with / without URNs,
+	// for the session contact (seen as @contact, @run, @parent.contact of its sub-flow, @child) and for the contact of
+	// the parent run summary of a flow_action trigger (@parent, @parent.contact)
+	for _, who := range []string{"session", "parent-summary"} {
+		for _, id := range idShapes[1:] {
+			for _, nm := range []string{"unset", "empty"} {
+				for _, us := range []string{"urns", "no-urns"} {
+					if who == "parent-summary" && us == "no-urns" && nm == "empty" {
+						continue
+					}
+					out = append(out, "unnamed|"+who+"|"+id+"|"+nm+"|"+us)
+				}
+			}
+		}
+	}
+	for _, h := range historyDirected {
+		out = append(out, h.name)
+	}
+	return out
+}
+
+// ---------------------------------------------------------------------------------------------------
+// directed policy histories: the redaction policy changes while the session is waiting
+
+type histCase struct {
+	name     string
+	start    string   // policy of the trigger's environment: none | urns | absent (= none, key left out)
+	steps    []string // per resume: "" no environment | policy-only | policy+other | other-only | identical, suffixes: "+contact" refreshed contact, "+restart" read back first, "+absent" write none by leaving the key out
+	noisy    bool     // the flows copy URN-derived values into results / messages (leaves URN-derived state behind under policy none)
+	trigger  string   // manual | msg | flow_action
+	emptyEnv bool     // every other setting at its default (environment {} plus the policy)
+}
+
+var historyDirected = []histCase{
+	{name: "policy-none-then-urns", start: "none", steps: []string{"policy-only", "", ""}, trigger: "msg"},
+	{name: "policy-urns-then-none", start: "urns", steps: []string{"policy-only", "", ""}, trigger: "msg"},
+	{name: "policy-flip-flop-with-restarts", start: "none", steps: []string{"policy-only+restart", "policy-only+restart", "policy-only+restart", "+restart", "policy-only"}, trigger: "manual"},
+	{name: "policy-flip-flop-in-memory", start: "urns", steps: []string{"policy-only", "policy-only", "identical", "policy-only", ""}, trigger: "manual"},
+	{name: "policy-switch-with-other-setting", start: "none", steps: []string{"policy+other", "other-only", "policy+other", ""}, trigger: "msg"},
+	{name: "policy-switch-with-refreshed-contact", start: "none", steps: []string{"policy-only+contact", "+contact", "policy-only+contact+restart", ""}, trigger: "manual"},
+	{name: "policy-absent-key-then-urns", start: "absent", steps: []string{"policy-only", "policy-only+absent", "policy-only+restart"}, trigger: "manual"},
+	{name: "policy-switch-default-environment", start: "absent", steps: []string{"policy-only", "", "policy-only", ""}, trigger: "msg", emptyEnv: true},
+	{name: "policy-switch-noisy-flow", start: "none", steps: []string{"policy-only", "", "policy-only", "policy-only+restart"}, noisy: true, trigger: "msg"},
+	{name: "policy-switch-parent-summary", start: "none", steps: []string{"policy-only", "+restart", "policy-only", ""}, trigger: "flow_action"},
+	{name: "policy-switch-parent-summary-noisy", start: "urns", steps: []string{"policy-only", "policy-only", ""}, noisy: true, trigger: "flow_action"},
+	{name: "policy-late-switch-after-restart", start: "none", steps: []string{"", "+restart", "policy-only", ""}, trigger: "manual"},
+}
+
+func historyCase(name string) *histCase {
+	for i := range historyDirected {
+		if historyDirected[i].name == name {
+			return &historyDirected[i]
+		}
+	}
+	return nil
+}
+
+// buildHistory makes the scenario of a directed policy history and the set of resumes preceded by a restart.
+func buildHistory(h *histCase) (*gen.Scenario, map[int]bool) {
+	quiet0, after, b0 := "Hi @contact.name, you said @input.text; so far @results / @run.status", "after child: @child.status @child.results", "in child of @parent.flow.name: @parent.results"
+	a0 := []any{d.SendMsg("m0", quiet0), result("Echo", "@input.text")}
+	b0acts := []any{d.SendMsg("mb0", b0)}
+	if h.noisy {
+		a0 = []any{d.SendMsg("m0", allURNTemplates), result("URN Copy", "@contact.urn"), result("All", "@(json(contact.urns))")}
+		after = childTemplates
+		b0acts = []any{d.SendMsg("mb0", parentTemplates), result("URN Copy", "@parent.contact.urn|@contact.urn")}
+	}
+	a0 = append(a0, d.Enter("e", "B", false))
+	flows := []M{
+		d.Flow("A", "messaging",
+			d.Node("a0", a0, nil, d.Exit("a0x", "a1")),
+			d.Node("a1", []any{d.SendMsg("m1", after)}, nil, d.Exit("a1x", "a2")),
+			d.WaitNode("a2", "a0", nil)),
+		d.Flow("B", "messaging",
+			d.Node("b0", b0acts, nil, d.Exit("b0x", "b1")),
+			d.WaitNode("b1", "b2", nil),
+			d.Node("b2", []any{d.SendMsg("mb2", "bye from child, you said @input.text")}, nil, d.Exit("b2x", "")))}
+
+	c := threeSchemeContact()
+	var t M
+	switch h.trigger {
+	case "msg":
+		t = d.MsgTrigger("A", c, "hello")
+	case "flow_action":
+		t = d.Manual("A", c)
+		t["type"] = "flow_action"
+		pc := unnamed(d.Contact())
+		pc["uuid"] = gen.NamedUUID("contact:parent")
+		pc["id"] = 5678
+		pc["urns"] = []string{"tel:+12065553434", "twitter:bobby", "mailto:parent@bar.com"}
+		t["run_summary"] = M{"uuid": gen.NamedUUID("run:parent"), "flow": M{"uuid": gen.NamedUUID("flow:P"), "name": "Parent"}, "contact": pc, "status": "active",
+			"results": M{"role": M{"name": "Role", "value": "reporter", "category": "Reporter", "node_uuid": gen.NamedUUID("node:p1"), "input": "a reporter", "created_on": "2000-01-01T00:00:00Z"}}}
+		t["history"] = M{"parent_uuid": gen.NamedUUID("session:parent"), "ancestors": 1, "ancestors_since_input": 0}
+	default:
+		t = d.Manual("A", c)
+	}
+	env := map[string]any{"date_format": "DD-MM-YYYY", "time_format": "h:mm aa", "timezone": "Africa/Kigali", "allowed_languages": []any{"eng", "spa"}, "default_country": "RW",
+		"number_format": map[string]any{"decimal_symbol": ",", "digit_grouping_symbol": "."}, "input_collation": "confusables"}
+	if h.emptyEnv {
+		env = map[string]any{}
+	}
+	policy := "none"
+	switch h.start {
+	case "urns":
+		policy = "urns"
+		env["redaction_policy"] = "urns"
+	case "none":
+		env["redaction_policy"] = "none"
+	}
+	t["environment"] = cloneJSON(env)
+
+	restarts := map[int]bool{}
+	var resumes []M
+	others := []func(map[string]any){
+		func(e map[string]any) { e["timezone"] = "America/Guayaquil" },
+		func(e map[string]any) { e["date_format"] = "MM-DD-YYYY" },
+		func(e map[string]any) { delete(e, "number_format") },
+		func(e map[string]any) { e["default_country"] = "US" },
+	}
+	nOther := 0
+	for i, step := range h.steps {
+		m := d.MsgResume(i, []string{"yes", "Jim", "23", "no", "again", "more"}[i%6])
+		parts := strings.Split(step, "+")
+		kind := parts[0]
+		if len(parts) > 1 && parts[1] == "other" {
+			kind = "policy+other"
+		}
+		has := func(f string) bool {
+			for _, p := range parts[1:] {
+				if p == f {
+					return true
+				}
+			}
+			return false
+		}
+		if kind != "" {
+			switch kind {
+			case "policy-only":
+				policy = flip(policy)
+			case "policy+other":
+				policy = flip(policy)
+				others[nOther%len(others)](env)
+				nOther++
+			case "other-only":
+				others[nOther%len(others)](env)
+				nOther++
+			}
+			if policy == "none" && has("absent") {
+				delete(env, "redaction_policy")
+			} else {
+				env["redaction_policy"] = policy
+			}
+			m["environment"] = cloneJSON(env)
+		}
+		if has("contact") {
+			rc := unnamed(d.Contact())
+			rc["urns"] = [][]string{{"mailto:new@bar.com", "tel:+12065558989", "facebook:99887766"}, {"tel:+250788123123", "twitterid:54784326227#nyaruka"}, {"telegram:5478432#bobbyt"}}[i%3]
+			if i%2 == 1 {
+				rc["name"] = "Bobby"
+			}
+			m["contact"] = rc
+			m["msg"].(M)["urn"] = rc["urns"].([]string)[0]
+		}
+		if has("restart") {
+			restarts[i] = true
+		}
+		resumes = append(resumes, m)
+	}
+	return &gen.Scenario{Assets: d.BaseAssets(flows...), Trigger: t, Resumes: resumes}, restarts
+}
+
+// unnamedCase builds the scenario of one point of the "shown by id" grid.
+func unnamedCase(name string) *gen.Scenario {
+	parts := strings.Split(name, "|") // unnamed|who|id|name|urns
+	who, id, nm, us := parts[1], parts[2], parts[3], parts[4]
+	shape := func(c M) {
+		applyID(c, id)
+		applyName(c, nm)
+		if us == "no-urns" {
+			delete(c, "urns")
+		}
+	}
+	var s *gen.Scenario
+	if who == "session" {
+		s = directedScenario("parent-child-runs")
+		shape(s.Trigger["contact"].(M))
+		// the name comes and goes: a refreshed contact with a name, then again without
+		r0 := s.Resumes[0]
+		rc := threeSchemeContact()
+		rc["name"] = "Bob Again"
+		applyID(rc, id)
+		r0["contact"] = rc
+		r1 := s.Resumes[1]
+		rc2 := threeSchemeContact()
+		shape(rc2)
+		r1["contact"] = rc2
+	} else {
+		s = directedScenario("child-of-trigger-parent")
+		shape(s.Trigger["run_summary"].(M)["contact"].(M))
+	}
+	return s
 }
 
 func directedScenario(name string) *gen.Scenario {
 	act := d.Action
+	if strings.HasPrefix(name, "unnamed|") {
+		return unnamedCase(name)
+	}
 	switch name {
 	case "unnamed-contact", "unnamed-contact-no-urns":
 		c := unnamed(threeSchemeContact())
